@@ -324,7 +324,7 @@ def run_check(pid: str, tier: str, seed: int, replay_path: str | None = None) ->
         f"distinct_nontrivial={len(total.nontrivial)} violations={len(unlisted)} "
         f"known={len(listed)} wall={wall:.1f}s"
     )
-    if not total.samples or total.evaluations == 0 or len(total.nontrivial) < 2:
+    if rc == 0 and (not total.samples or total.evaluations == 0 or len(total.nontrivial) < 2):
         print("HARNESS-ERROR: run covered nothing non-trivial")
         return 2
     return rc
